@@ -955,6 +955,7 @@ func runL1History(g *gen, mode string, nops int, hstats map[string]int, faulty, 
 	key := func() sval { return keys[g.r.Intn(len(keys))] }
 	var delTimes []int64
 	ending := false
+	var maxCutoff int64 = -1 << 62
 	endAfterScript := false // the history is the script, then the two final readers
 	// scripted openings: several writers that never saw each other (k unmerged current versions)
 	var script []*kop
@@ -1273,7 +1274,12 @@ func runL1History(g *gen, mode string, nops int, hstats map[string]int, faulty, 
 			known = append(known, kn)
 		}
 		if op.kind == "delhist" || op.kind == "vacuum" || op.kind == "cvacuum" {
-			w.exec(&kop{kind: "walk", before: op.before}, hstats)
+			// versions created before the cutoff of ANY history deletion so far may have lost nodes
+			// ("until a vacuum whose cutoff covers them"): walk with the latest cutoff used
+			if op.before > maxCutoff {
+				maxCutoff = op.before
+			}
+			w.exec(&kop{kind: "walk", before: maxCutoff}, hstats)
 		}
 		if (op.kind == "delhist" || op.kind == "vacuum" || op.kind == "cvacuum") && w.lastDeleted > 0 {
 			// other handles may now point at deleted objects (documented effect of
